@@ -9,8 +9,8 @@ def add(pid, technique, text, ref, note=""):
 
 add("C01", "Hypothesis generators + reference-model oracle (independent profiler recomputes every figure)",
     "Generated-input search: thousands of random graphs x configurations per run; every printed instance count, line figure and comment fact is recomputed from the abstract triples by an independent reference profiler. Exploration, not proof: the space is unbounded, so sampling with construction-biased generators is the right level.", "DESIGN.md 2/C01")
-add("C06", "bounded-exhaustive enumeration + Hypothesis; oracle = abstract triples (rdflib cross-checks the generator)",
-    "Every literal content up to 3 (quick) / 5 (thorough) tokens of a 22-token adversarial alphabet x every suffix x every tail is enumerated completely and read by the real N-Triples reader; Hypothesis covers longer contents and multi-line documents. Exhaustive within the bound, sampled beyond.", "DESIGN.md 2/C06")
+add("C06", "bounded-exhaustive enumeration + Hypothesis + coverage-guided fuzzing (atheris/libFuzzer driving the same strategy); oracle = abstract triples (rdflib cross-checks the generator)",
+    "Every literal content up to 3 (quick) / 5 (thorough) tokens of a 24-token adversarial alphabet x every suffix x every tail is enumerated completely and read by the real N-Triples reader; Hypothesis covers longer contents and multi-line documents. Exhaustive within the bound, sampled beyond.", "DESIGN.md 2/C06")
 add("C02", "Hypothesis generators + reference-model oracle (expected key set with float n/N >= t semantics, both directions)",
     "Generated graphs with thresholds placed on the k/n boundaries of the class sizes present; the key set and shape set read from the ShExC text must equal the set computed by the reference profiler. Exploration over an unbounded input space.", "DESIGN.md 2/C02")
 add("C09", "Hypothesis metamorphic testing (permutation / blank-node renaming) with a reference-model tie detector",
@@ -21,11 +21,11 @@ add("C13", "Hypothesis metamorphic testing, one option flipped at a time, per-op
     "Two fresh Shapers differing in exactly one argument; the relation the property documents for that option is checked on the parsed outputs (structure identity, '?'->'*', {k>1}->'+', relaxation only below 100 %, disjunction over the same alternatives, ratio rounding vs the exact fraction).", "DESIGN.md 2/C13")
 add("C03", "Hypothesis generators (schema-consistent graphs) + independent ShEx validator oracle + twin-run metamorphic relation",
     "Every (instance, shape) pair of every generated schema-consistent graph is validated against the parsed ShExC text by an independent ShEx validator (greatest fixed point over shape references); '?' admissibility is checked against the reference profiler and the mode-off twin run must report the cardinalities the mode-on run cites as original.", "DESIGN.md 2/C03")
-add("C04", "Hypothesis generators over adversarial graphs x accepted configurations; oracle = no exception / no hang, crashes bucketed by (type, innermost frame)",
+add("C04", "Hypothesis generators over adversarial graphs x accepted configurations, plus coverage-guided fuzzing (atheris/libFuzzer driving the same strategy); oracle = no exception / no hang, crashes bucketed by (type, innermost frame)",
     "Crash-freedom over generated graphs, configurations, output formats, calls and input syntaxes; known crash buckets are excluded by signature inside the property so that the search continues behind them.", "DESIGN.md 2/C04")
 add("C05", "Hypothesis generators + independent grammar-based ShExC reader and rdflib/SHACL graph queries as validity oracle",
     "Every generated document must parse under an independent reader written from the ShExC grammar, have a functional prefix map, unique labels and only defined references; SHACL documents must parse as Turtle with declared node shapes and exactly one path per property shape.", "DESIGN.md 2/C05")
-add("C07", "Hypothesis layout generator + bounded-exhaustive separator placements; oracle = abstract triples (rdflib cross-checks the generator); out-of-dialect probes",
+add("C07", "Hypothesis layout generator + bounded-exhaustive separator placements + coverage-guided fuzzing (atheris/libFuzzer driving the same strategy); oracle = abstract triples (rdflib cross-checks the generator); out-of-dialect probes",
     "Documents are laid out from abstract triples by drawn choices (grouping, IRI spellings, separators at every token boundary, comments); all blank/newline placements of pinned documents of <=12 tokens are enumerated; the real streaming reader must yield exactly the abstract triples.", "DESIGN.md 2/C07")
 add("C14", "Hypothesis metamorphic testing: G with / without inverse_paths and reverse(G) without",
     "Three runs per generated graph compared on canonical documents: outgoing constraints and instance counts unchanged, incoming constraints equal to the outgoing constraints of the reversed graph (keys, cardinalities, figures, comment facts).", "DESIGN.md 2/C14")
